@@ -77,6 +77,10 @@ theorem increase_at_least_one (last new : GasPrice) (used maxGas : Int) (p : Par
 example : ValidInputs ⟨1, "ugnot", 100⟩ 900 1000 ⟨10, 70, ⟨1, "ugnot", 1⟩⟩ ∧
     upStep ⟨1, "ugnot", 100⟩ 900 1000 ⟨10, 70, ⟨1, "ugnot", 1⟩⟩ = 2 := by decide
 example : upStep ⟨1, "ugnot", 5⟩ 701 1000 ⟨10, 70, ⟨1, "ugnot", 1⟩⟩ = 1 := by decide   -- the quotient is 0, the step is still 1
+-- the values the repository's own tests pin (TestCalcBlockGasPrice), computed by the model:
+example : calcPrice ⟨1, "ugnot", 100⟩ 900 1000 ⟨10, 70, ⟨1, "ugnot", 1⟩⟩ = .ok ⟨1, "ugnot", 102⟩ := by rfl
+example : calcPrice ⟨7, "atom", 100⟩ 7500 10000 ⟨2, 50, GasPrice.zero⟩ = .ok ⟨7, "atom", 125⟩ := by rfl
+example : calcPrice ⟨7, "atom", 100⟩ 2500 10000 ⟨2, 50, GasPrice.zero⟩ = .ok ⟨7, "atom", 75⟩ := by rfl
 
 /-! ## Moves down, never below the floor -/
 
@@ -164,6 +168,10 @@ theorem floor_invariant (last new : GasPrice) (used maxGas : Int) (p : Params)
       have := (increase_at_least_one last new used maxGas p hv h1 h2 h3 hgt hr).1
       omega
 
+example : (1 : Int) ≤ 99 :=   -- floor 1, price 100, idle block: the new price 90 stays ≥ 1
+  have h : calcPrice ⟨1, "ugnot", 100⟩ 0 1000 ⟨10, 70, ⟨1, "ugnot", 1⟩⟩ = .ok ⟨1, "ugnot", 90⟩ := by rfl
+  Int.le_trans (floor_invariant _ _ _ _ _ (by decide) (by decide) h) (by decide)
+
 /-! ## The rounding of the step -/
 
 /-- The two nested Euclidean divisions are one floor: for a positive target and
@@ -179,6 +187,8 @@ theorem step_is_single_floor (dist last target c : Int) (ht : 0 < target) (hc : 
   · exact Int.mul_ediv_self_le (Int.ne_of_gt hpos)
   · have := Int.lt_mul_ediv_self_add (x := dist * last) hpos
     rw [Int.mul_add, Int.mul_one]; exact this
+
+example : stepSize 200 100 700 10 = 2 ∧ (200 * 100 : Int) / (700 * 10) = 2 := by decide
 
 /-! ## Never overflows or panics -/
 
@@ -319,6 +329,12 @@ theorem idle_chain_decays (maxGas : Int) (p : Params) (us : List Int) (last : Ga
 example : runBlocks 1000 ⟨10, 70, ⟨1, "ugnot", 20⟩⟩ ⟨1, "ugnot", 25⟩ [0, 0, 0, 0, 0] = .ok ⟨1, "ugnot", 20⟩ := by
   rfl
 
+-- the hypotheses of `idle_chain_decays` on that run: five idle blocks from 25 with floor 20
+example : ∃ g, runBlocks 1000 ⟨10, 70, ⟨1, "ugnot", 20⟩⟩ ⟨1, "ugnot", 25⟩ [0, 699, 0, 3, 0] = .ok g ∧
+    (20 : Int) ≤ g.amount ∧ g.amount ≤ max 20 (25 - 5) ∧ g.gas = 1 :=
+  idle_chain_decays 1000 ⟨10, 70, ⟨1, "ugnot", 20⟩⟩ [0, 699, 0, 3, 0] ⟨1, "ugnot", 25⟩
+    (by decide) (by decide) (by decide) (by decide) (by decide) (by decide) (by decide) (by decide)
+
 /-! ## `UpdateGasPrice`: what the EndBlocker writes, observed through `LastGasPrice` -/
 
 /-- A negative reading of the block gas meter makes `UpdateGasPrice` return at once. -/
@@ -362,6 +378,12 @@ theorem update_follows_calc (s : Store) (lgp new : GasPrice) (used maxGas : Int)
     refine ⟨some new, by simp [update, hu', hl, hr, he, setGasPrice, hz, hq], ?_, fun h => absurd h he⟩
     have : ¬ new.amount < 0 := by omega
     simp [lastGasPrice, this]
+
+example : ∃ s', update (some ⟨1, "ugnot", 100⟩) 900 1000 ⟨10, 70, ⟨1, "ugnot", 1⟩⟩ = .ok s' ∧
+    lastGasPrice s' = .ok (stored ⟨1, "ugnot", 102⟩) ∧
+    ((⟨1, "ugnot", 102⟩ : GasPrice) = ⟨1, "ugnot", 100⟩ → s' = some ⟨1, "ugnot", 100⟩) :=
+  update_follows_calc (some ⟨1, "ugnot", 100⟩) ⟨1, "ugnot", 100⟩ ⟨1, "ugnot", 102⟩ 900 1000 ⟨10, 70, ⟨1, "ugnot", 1⟩⟩
+    (by decide) (by simp [lastGasPrice, stored]) (by rfl) (by decide) (Or.inl (by decide))
 
 /-- THE STATEMENT, end to end, minus the overflow case: for every store whose
 price reads back as `lgp`, valid inputs, a price per a non-zero number of gas
